@@ -715,7 +715,8 @@ class Machine:
         for l, (form, term) in forms.items():
             lo, hi = self.box.bounds(term)
             self.ob(lo >= 0, 'non-negative', 'loop term of %s' % b.local_name(l), b.blocks[head]['term']['line'], 'term range [%d, %d]: %s' % (lo, hi, term))
-            bounds[l] = (0, self.M - 1) if form == 'mod' else (0, max(0, (self.nmax - 1) * hi))
+            ilo, ihi = self.box.bounds(env[l][1])
+            bounds[l] = (0, max(self.M - 1, ihi)) if form == 'mod' else (min(0, ilo), max(0, (self.nmax - 1) * hi) + max(0, ihi))
         iteration(bounds, True)
         # after the loop
         env3 = dict(env)
@@ -724,11 +725,12 @@ class Machine:
             name = 'S[%s]' % term
             self.ssyms[name] = term
             self.box.d[name] = (0, self.nmax * max(hi, 0))
+            init = env[l][1]        # the value the accumulator had before the loop (normally the constant 0)
             if form == 'plain':
-                env3[l] = ('p', Poly.sym(name), env[l][2])
+                env3[l] = ('p', init + Poly.sym(name), env[l][2])
             else:
                 r = self.fresh('r', 0, self.M - 1)
-                self.cong[r] = Poly.sym(name)
+                self.cong[r] = init + Poly.sym(name)
                 env3[l] = ('p', Poly.sym(r), env[l][2])
         env3 = self.write(env3, nt['dst'], ('none',))
         return none_t, env3
